@@ -170,6 +170,21 @@ func init() {
 			}
 			return c.tensorVal(n)
 		},
+		"ShallowClone": func(c *Ctx, s *Shadow, args []Value, sig *types.Signature) Value {
+			// a new tensor object (own shape and strides) over the SAME elements
+			var n *Shadow
+			if p := c.nativeCall("ShallowClone", func() {
+				n = &Shadow{ids: s.ids.ShallowClone(), twin: s.twin.ShallowClone(), dt: s.dt}
+			}); p != nil {
+				panic(p)
+			}
+			if sig != nil {
+				if _, isIface := sig.Results().At(0).Type().Underlying().(*types.Interface); !isIface {
+					return n // (*Dense).ShallowClone returns *Dense
+				}
+			}
+			return c.tensorVal(n)
+		},
 		"Reshape": func(c *Ctx, s *Shadow, args []Value, sig *types.Signature) Value {
 			dims := c.intsOf(args[0], "Reshape dims")
 			c.noteMetaWrite(s, fmt.Sprintf("Reshape%v in place", dims))
@@ -680,6 +695,43 @@ func (c *Ctx) registerTensorIntrinsics(tab map[string]intrinsicFn) {
 		tab["(*gorgonia.org/tensor.Dense)."+name] = h
 		tab["(*gorgonia.org/tensor.AP)."+name] = h
 		tab["(*gorgonia.org/tensor.array)."+name] = h
+	}
+	// typed element accessors d.GetF64(i) / d.SetF64(i, x) ...: the raw backing at flat position i
+	for suffix, dt := range map[string]tensor.Dtype{"B": tensor.Bool, "F32": tensor.Float32, "F64": tensor.Float64, "I": tensor.Int, "I8": tensor.Int8, "I16": tensor.Int16,
+		"I32": tensor.Int32, "I64": tensor.Int64, "U": tensor.Uint, "U8": tensor.Uint8, "U16": tensor.Uint16, "U32": tensor.Uint32, "U64": tensor.Uint64} {
+		suffix, dt := suffix, dt
+		get := func(c *Ctx, fn *ssa.Function, a []Value) Value {
+			s := c.asShadow(a[0])
+			if s == nil || s.abs || s.dt != dt {
+				panic(c.abort("Get%s on a tensor that is not %v", suffix, dt))
+			}
+			c.E.Stubs["tensor.Get"+suffix]++
+			i := int(c.concInt(a[1].(*smt.Term), "Get index"))
+			var id interface{}
+			if p := c.nativeCall("Get"+suffix, func() { id = s.ids.GetI64(i); _ = s.twin.Get(i) }); p != nil {
+				panic(p)
+			}
+			so, _ := c.elemSort(s.dt)
+			return c.termOfID(id.(int64), so)
+		}
+		set := func(c *Ctx, fn *ssa.Function, a []Value) Value {
+			s := c.asShadow(a[0])
+			if s == nil || s.abs || s.dt != dt {
+				panic(c.abort("Set%s on a tensor that is not %v", suffix, dt))
+			}
+			c.E.Stubs["tensor.Set"+suffix]++
+			i := int(c.concInt(a[1].(*smt.Term), "Set index"))
+			t := a[2].(*smt.Term)
+			c.noteDataWrite(s, "Set"+suffix)
+			if p := c.nativeCall("Set"+suffix, func() { s.twin.Set(i, benignScalar(dt)); s.ids.SetI64(i, t.ID) }); p != nil {
+				panic(p)
+			}
+			return nil
+		}
+		for _, recv := range []string{"(*gorgonia.org/tensor.Dense).", "(*gorgonia.org/tensor.array).", "(*gorgonia.org/tensor/internal/storage.Header)."} {
+			tab[recv+"Get"+suffix] = get
+			tab[recv+"Set"+suffix] = set
+		}
 	}
 	// typed raw accessors of the storage header (d.Bools(), d.Float32s(), ...): the backing slice itself,
 	// a 1-element slice for scalars
